@@ -239,8 +239,8 @@ class E1:
         (bounded and away from zero, bounded, the solver's own) because a model may sit on a point where the
         difference is below the float tolerance."""
         models = []
-        for strat in ("distinct", "nonzero", "bounded") + (("extreme",) if extreme else ()):
-            m = self._polish(hyps, goal, strat)
+        for strat in ("margin", "distinct", "nonzero", "bounded") + (("extreme",) if extreme else ()):
+            m = self._polish(hyps, goal, strat, base=q.model)
             if m is not None:
                 models.append(m)
         models.append(q.model)
@@ -334,19 +334,43 @@ class E1:
         self._inconclusive(full, "solver model did not reproduce on the real code")
         return None
 
-    def _polish(self, hyps, goal, strategy="bounded"):
+    def _polish(self, hyps, goal, strategy="bounded", base=None):
         vs = [v for v in z3_vars_of(self.ins) if v.sort() == z3.RealSort()]
         if not vs:
             return None
         s = z3.Solver()
         s.set("timeout", 5000)
-        from symcore.solver import ground_axioms
+        from symcore.solver import _finite_domains, ground_axioms, model_value
         g = V.to_z3(goal)
         cons = list(hyps) + [z3.Not(g)]
         for c in cons:
             s.add(c)
         for a in ground_axioms(cons):
             s.add(a)
+        if base is not None:
+            # finite-domain variables (0/1 flags) keep the values of the solver's own counterexample: what is left is
+            # usually linear, so the polished model is found within the short time-out
+            try:
+                for v, _vals in _finite_domains(cons):
+                    s.add(v == model_value(base, v))
+            except Exception:
+                pass
+        if strategy == "margin":
+            # a counterexample whose violation is well above the float tolerance of the replay: some equality of the
+            # goal fails by at least delta (largest delta the solver can reach quickly)
+            atoms = _eq_atoms(g)
+            if not atoms:
+                return None
+            for delta in ("1/2", "1/20", "1/200"):
+                s.push()
+                d = z3.RealVal(delta)
+                s.add(z3.Or(*[z3.Or(a - b >= d, b - a >= d) for a, b in atoms]))
+                for v in vs:
+                    s.add(v >= -4, v <= 4)
+                if s.check() == z3.sat:
+                    return s.model()
+                s.pop()
+            return None
         if strategy == "extreme":  # large, widely separated magnitudes (saturating softmax / clipping ranges)
             for v in vs:
                 s.add(v >= -400, v <= 400)
@@ -365,6 +389,19 @@ class E1:
         if s.check() == z3.sat:
             return s.model()
         return None
+
+
+def _eq_atoms(g, out=None, depth=0):
+    """(lhs, rhs) of the arithmetic equalities a goal is a conjunction of."""
+    out = [] if out is None else out
+    if depth > 6 or not isinstance(g, z3.ExprRef):
+        return out
+    if z3.is_and(g):
+        for c in g.children():
+            _eq_atoms(c, out, depth + 1)
+    elif z3.is_eq(g) and z3.is_arith(g.arg(0)):
+        out.append((g.arg(0), g.arg(1)))
+    return out
 
 
 def _is_true(g):
